@@ -335,6 +335,19 @@ theorem direct_reflexive_symmetric_on_the_dag (c1 c2 : Circuit) (h1 : WellFormed
     direct_walk_is_its_operation_list_form c2 c1 h2 h1, directL_refl, directL_symm]
   exact ⟨rfl, rfl⟩
 
+/-- … and insensitive to wrapping and to identity gates (the statement of §1 for the walk itself) -/
+theorem direct_insensitive_on_the_dag (pre post : List Op) (gs : List G1) (q : QReg) (ne np nc : Nat) (c2 : Circuit)
+    (h2 : WellFormed c2)
+    (hw : WellFormed ⟨ne, np, nc, pre ++ [.wrap gs q] ++ post⟩) (hu : WellFormed ⟨ne, np, nc, pre ++ Op.unwrap (.wrap gs q) ++ post⟩)
+    (hi : WellFormed ⟨ne, np, nc, pre ++ [.one .I q] ++ post⟩) (hn : WellFormed ⟨ne, np, nc, pre ++ post⟩) :
+    direct ⟨ne, np, nc, pre ++ [.wrap gs q] ++ post⟩ c2 = direct ⟨ne, np, nc, pre ++ Op.unwrap (.wrap gs q) ++ post⟩ c2 ∧
+    direct ⟨ne, np, nc, pre ++ [.one .I q] ++ post⟩ c2 = direct ⟨ne, np, nc, pre ++ post⟩ c2 := by
+  rw [direct_walk_is_its_operation_list_form _ c2 hw h2, direct_walk_is_its_operation_list_form _ c2 hu h2,
+    direct_walk_is_its_operation_list_form _ c2 hi h2, direct_walk_is_its_operation_list_form _ c2 hn h2]
+  obtain ⟨a, b⟩ := direct_insensitive_to_wrapping_and_identities pre post gs q ne np nc c2
+  rw [a, b]
+  exact ⟨rfl, rfl⟩
+
 /-- … and therefore **`CircuitStorage` with its default check** (`check_redundant_circuit` = `direct` on copies; an
     exception counts as "different", as in the driver) **never refuses a distinct circuit**, stated for the graph-walk
     model: a circuit that is not stored is, wire by wire, the same circuit as one that is stored -/
@@ -418,5 +431,12 @@ example : removeRedundant2 [demo, demo', witA, witB, d22A, d22A'] = [demo, witA,
 example : ∃ g body, MG.build demo = .ok g ∧ Rep0 g (wiresN 1 1 1) body ∧ Rep g.addControlTarget2 (wiresN 1 1 1) body := by
   obtain ⟨g, hb, ⟨body, r, _⟩⟩ := dag_is_a_family_of_register_paths demo (by decide +kernel)
   exact ⟨g, body, hb, r, r.addControlTarget2⟩
+
+/-- the hypotheses of `direct_insensitive_on_the_dag` are met by a real instance -/
+example :
+    WellFormed ⟨1, 1, 0, [.one .H ⟨.e, 0⟩] ++ [.wrap [.H, .S] ⟨.p, 0⟩] ++ [.ctrl .CNOT ⟨.e, 0⟩ ⟨.p, 0⟩]⟩ ∧
+    WellFormed ⟨1, 1, 0, [.one .H ⟨.e, 0⟩] ++ Op.unwrap (.wrap [.H, .S] ⟨.p, 0⟩) ++ [.ctrl .CNOT ⟨.e, 0⟩ ⟨.p, 0⟩]⟩ ∧
+    WellFormed ⟨1, 1, 0, [.one .H ⟨.e, 0⟩] ++ [.one .I ⟨.p, 0⟩] ++ [.ctrl .CNOT ⟨.e, 0⟩ ⟨.p, 0⟩]⟩ ∧
+    WellFormed ⟨1, 1, 0, [.one .H ⟨.e, 0⟩] ++ [.ctrl .CNOT ⟨.e, 0⟩ ⟨.p, 0⟩]⟩ := by decide +kernel
 
 end Graphiq.C15
